@@ -619,33 +619,23 @@ pub fn collect_protocol_fees(deps: DepsMut) -> Result<Response, ContractError> {
     let config = CONFIG.load(deps.storage)?;
 
     // get the collected protocol fees so far
-    let protocol_fees = COLLECTED_PROTOCOL_FEES.load(deps.storage)?;
-    // reset the collected protocol fees
-    COLLECTED_PROTOCOL_FEES.save(
-        deps.storage,
-        &vec![
-            Asset {
-                info: protocol_fees[0].clone().info,
-                amount: Uint128::zero(),
-            },
-            Asset {
-                info: protocol_fees[1].clone().info,
-                amount: Uint128::zero(),
-            },
-            Asset {
-                info: protocol_fees[2].clone().info,
-                amount: Uint128::zero(),
-            },
-        ],
-    )?;
+    let mut protocol_fees = COLLECTED_PROTOCOL_FEES.load(deps.storage)?;
 
     let mut messages: Vec<CosmosMsg> = Vec::new();
-    for protocol_fee in protocol_fees {
+    for protocol_fee in protocol_fees.iter_mut() {
         // prevents sending protocol fees if the amount is less than the minimum collectable balance
         if protocol_fee.amount > MINIMUM_COLLECTABLE_BALANCE {
-            messages.push(protocol_fee.into_msg(config.fee_collector_addr.clone())?);
+            messages.push(
+                protocol_fee
+                    .clone()
+                    .into_msg(config.fee_collector_addr.clone())?,
+            );
+            // reset the collected protocol fee, only for the fees that are actually sent out.
+            // Fees below the minimum collectable balance remain in the ledger
+            protocol_fee.amount = Uint128::zero();
         }
     }
+    COLLECTED_PROTOCOL_FEES.save(deps.storage, &protocol_fees)?;
 
     Ok(Response::default()
         .add_attribute("action", "collect_protocol_fees")
